@@ -270,8 +270,9 @@ def run(ctx, info):
         k = rng.random()
         t = gen.doc_text(rng, root, corners=0.25) if k < 0.7 else nested_fn_doc(rng) if k < 0.85 else gen.noise_text(rng)
         cases.append((t, root, rng.choice(['', '', 'att_1'])))
-    pw = gen.pairwise_docs()   # every construct inside every context; a third of them in the quick tier
-    cases += [(t, r, '') for i, (_, t, r) in enumerate(pw) if ctx.tier == 'thorough' or i % 3 == ctx.seed % 3]
+    pw = gen.pairwise_docs()   # every construct inside every context; a third of them in the quick tier, the two small
+    # targeted families (footnote references at depth, two-line remarks in every position) on every run
+    cases += [(t, r, '') for i, (nm, t, r) in enumerate(pw) if ctx.tier == 'thorough' or i % 3 == ctx.seed % 3 or 'fn-depth' in nm or 'remark2' in nm]
     nb = 0
     known = {}
     trees = []
